@@ -78,7 +78,7 @@ def strongly_connected_counts(rng, n=None, nmin=2, nmax=14, real=None,
     for a, b in zip(perm, np.roll(perm, -1)):
         C[a, b] = rng.integers(1, maxc + 1)
     extra = rng.random((n, n)) < density
-    periodic = allow_periodic and rng.random() < 0.12
+    periodic = allow_periodic and n >= 2 and rng.random() < 0.12
     if periodic:
         # periodic chains (several eigenvalues of modulus one): a bare
         # directed ring, or extra edges only between consecutive classes
@@ -136,10 +136,37 @@ def reversible_chain(rng, n=None, nmin=3, nmax=30, density=None):
     return T, pi
 
 
-def irreducible_chain(rng, n=None, nmin=3, nmax=40, kind=None):
+def periodic_chain(rng, n):
+    """Irreducible *periodic* row-stochastic matrix (several eigenvalues of
+    modulus one): bare directed ring, Ehrenfest urn, random bipartite."""
+    sub = ['ring', 'ehrenfest', 'bipartite'][int(rng.integers(0, 3))]
+    A = np.zeros((n, n))
+    if sub == 'ring':
+        perm = rng.permutation(n)
+        A[perm, np.roll(perm, -1)] = 1.0
+    elif sub == 'ehrenfest':
+        N = n - 1
+        for i in range(n):
+            if i > 0:
+                A[i, i - 1] = i / N
+            if i < N:
+                A[i, i + 1] = (N - i) / N
+    else:
+        perm = rng.permutation(n)
+        h = max(1, n // 2)
+        a, b = perm[:h], perm[h:]
+        A[np.ix_(a, b)] = rng.random((len(a), len(b))) + 0.05
+        A[np.ix_(b, a)] = rng.random((len(b), len(a))) + 0.05
+    return A / A.sum(axis=1, keepdims=True), 'periodic-' + sub
+
+
+def irreducible_chain(rng, n=None, nmin=3, nmax=40, kind=None,
+                      periodic=0.0):
     """Irreducible row-stochastic matrix, not necessarily reversible."""
     if n is None:
         n = int(rng.integers(nmin, nmax + 1))
+    if kind is None and periodic and rng.random() < periodic:
+        return periodic_chain(rng, n)
     if kind is None:
         kind = ['dense', 'ring', 'reversible', 'nearly-reducible'][
             int(rng.integers(0, 4))]
